@@ -41,7 +41,7 @@ use std::alloc::{Layout, alloc, dealloc};
 use std::cell::RefCell;
 use std::ptr::NonNull;
 use std::sync::atomic::{AtomicPtr, AtomicU32, AtomicU64, Ordering};
-use std::sync::{Arc, Weak};
+use std::sync::{Arc, Mutex, Weak};
 use std::time::{Instant, SystemTime, UNIX_EPOCH};
 
 /// Magic constants for corruption detection
@@ -670,8 +670,16 @@ unsafe impl Send for SecureChunk {}
 unsafe impl Sync for SecureChunk {}
 
 /// Lock-free stack for high-performance chunk storage (Treiber stack)
+///
+/// `push` is lock-free. `pop` frees the node it removes, so two concurrent `pop`s would let
+/// one of them read `next` from a node the other has already freed (use-after-free) and
+/// then install that stale `next` as the head if the freed address has been pushed again in
+/// the meantime (ABA). Poppers are therefore serialised by `pop_lock`; with a single popper
+/// the head node can only be covered by newer pushes, never freed or re-linked, which makes
+/// the compare-exchange in `pop` safe.
 struct LockFreeStack<T> {
     head: AtomicPtr<Node<T>>,
+    pop_lock: Mutex<()>,
 }
 
 struct Node<T> {
@@ -683,6 +691,7 @@ impl<T> LockFreeStack<T> {
     fn new() -> Self {
         Self {
             head: AtomicPtr::new(std::ptr::null_mut()),
+            pop_lock: Mutex::new(()),
         }
     }
 
@@ -709,6 +718,7 @@ impl<T> LockFreeStack<T> {
     }
 
     fn pop(&self) -> Option<T> {
+        let _single_popper = self.pop_lock.lock().unwrap_or_else(|e| e.into_inner());
         loop {
             let head = self.head.load(Ordering::Acquire);
             if head.is_null() {
